@@ -990,6 +990,10 @@ def gen_close_prog(rng):
 
 
 CLOSE_HEADER = HEADER_NRT.replace('SC3.model.KCmp.', 'SC3.model.KCmp SC3.model.KScore.') + """
+Require Import SC3.model.Osc.
+(* the WHOLE binary form: model/KScore.score_raw_osc (C06's encoder applied to the model's score) versus the bytes of score.raw *)
+Definition raw_agrees (sc : list sentry) (raw : list Z) : bool :=
+  match score_raw_osc true sc with Ok r => list_eqb Z.eqb r raw | Err _ => false end.
 Definition closed_agrees (p : prog) (fuel : nat) (tail : Q) (o : nrt_obs) : bool :=
   let st := nrt_loop repaired p fuel (nrt_main repaired p) in
   nrt_completed repaired p fuel && list_eqb event_eqb (rev (n_log st)) (no_events o)
